@@ -127,7 +127,7 @@ HU_MC = [
 ]
 # negative configs: models of the PINNED code (stale emptiness after down-sampling; reset keeping the reduced lg_k).
 # TLC must report a violation of the contract invariants; kept to show that the machinery flags the pre-fix behaviour.
-HU_MC_NEGATIVE = ["MC_HllUnionDesign_pinned.cfg", "MC_HllUnionDesign_pinned_reset.cfg"]
+HU_MC_NEGATIVE = ["MC_HllUnionDesign_pinned.cfg", "MC_HllUnionDesign_pinned_reset.cfg", "MC_HllUnionDesign_pinned_kxq.cfg"]
 
 def _clean_ttrace():
     import glob, os
